@@ -59,16 +59,43 @@ def quiet():
 LEG_CRASHES = []
 
 
+class LegBudget(BaseException):
+    """a leg used up its CPU budget (BaseException: harness code around library calls catches Exception)"""
+
+
 def guarded_leg(default=None):
+    """see above; in addition a leg gets a CPU budget of its own (VERIF_LEG_CPU_BUDGET seconds of this process's user time, default 300
+    quick / 3000 thorough - the legs need a few seconds resp. a few minutes on the unchanged library): a changed library on which a
+    device spins or starves would otherwise keep the leg busy until the budget of the whole run is gone"""
     def deco(fn):
-        import functools, traceback
+        import functools, traceback, signal, os
 
         @functools.wraps(fn)
         def w(*a, **k):
+            budget = float(os.environ.get('VERIF_LEG_CPU_BUDGET', '300' if os.environ.get('VERIF_TIER', 'quick') == 'quick' else '3000'))
             try:
+                old_left, _ = signal.getitimer(signal.ITIMER_VIRTUAL)
+                old_h = signal.getsignal(signal.SIGVTALRM)
+                nest = True
+            except (ValueError, OSError):
+                nest = False
+            t0 = os.times().user
+
+            def on_leg(sig, frm):
+                raise LegBudget(f'the `{fn.__name__}` leg used more than {budget:.0f} s of CPU')
+            try:
+                if nest:
+                    signal.signal(signal.SIGVTALRM, on_leg)
+                    signal.setitimer(signal.ITIMER_VIRTUAL, budget, 5.0)
                 return fn(*a, **k)
-            except Exception:
+            except (Exception, LegBudget):
                 LEG_CRASHES.append({'leg': fn.__name__, 'traceback': traceback.format_exc()[-1800:]})
                 return default() if callable(default) else default
+            finally:
+                if nest:
+                    signal.setitimer(signal.ITIMER_VIRTUAL, 0)
+                    signal.signal(signal.SIGVTALRM, old_h if old_h is not None else signal.SIG_DFL)
+                    if old_left > 0:           # the budget of the whole run goes on, less what this leg used
+                        signal.setitimer(signal.ITIMER_VIRTUAL, max(old_left - (os.times().user - t0), 1.0), 5.0)
         return w
     return deco
